@@ -39,7 +39,10 @@ def scripts(rng):
           "(insert %s (%s %s))" % (U, row(1, "u1", None), row(2, "u2", 5)), "(drop_table %s)" % U,
           "(insert %s (%s))" % (T, row(9, "kept", 0)), "(set_db_cp 65001)", "(sum_clear title)"]
     many = ["(create_table %s %s)" % (T, cols)] + ["(insert %s (%s))" % (T, row(k, "s%d" % (k % 7), k)) for k in range(1, 40)]
-    return {"dml": s1, "stream-flush": s2, "drop": s3, "many-inserts": many}
+    # nothing but Package::create (whose own final flush must not lose an error), and a session that only writes a stream:
+    # no call re-arms the deferred write-back, so whatever create left unwritten would stay unwritten
+    only_stream = ["(write_stream %s (%s))" % (X.enc_str("Blob"), " ".join(str(i % 7) for i in range(100)))]
+    return {"dml": s1, "stream-flush": s2, "drop": s3, "many-inserts": many, "create-only": [], "stream-only": only_stream}
 
 
 def fr(k, persistent, mode, cmds):
